@@ -49,6 +49,7 @@ class AbsObj(object):
         self.items = items or {}
         self.attrs = attrs or {}
         self.methods = methods or {}
+        self.types = None           # names of the classes isinstance() answers True for (None: isinstance is Undecided)
 
     def __repr__(self):
         return '<%s>' % (self.name,)
@@ -669,6 +670,8 @@ class Interp(object):
                 names = set(x.name for x in ts if isinstance(x, TypeTok))
                 if isinstance(v, Kind):
                     return bool(self.kind_types.get(v.name, set()) & names)
+                if isinstance(v, AbsObj) and getattr(v, 'types', None) is not None:
+                    return bool(set(v.types) & names)
                 if isinstance(v, bool):
                     return bool(names & {'bool', 'int'})
                 if isinstance(v, int):
